@@ -1,6 +1,7 @@
 //! Generators. Every generator is a plain function of a `Choices`.
 
 pub mod syn;
+pub mod wild;
 
 use crate::choice::Choices;
 use crate::model::*;
